@@ -580,6 +580,16 @@ class Splicer:
                 raise SpliceError(self.force_external[gkey])
             return self._do_fn(key, kv, sections, tmpl_file, tmpl_line, decl_only=decl_only)
         except SpliceError as e:
+            if "not found in /repo" in str(e) and not decl_only and "as" not in kv:
+                # the function no longer exists under this name (renamed or removed): nothing is emitted for it; whoever calls it
+                # under a new name calls a function no contract knows and is emitted unverified in turn; only the properties that
+                # depend on these functions lose their verdict
+                del self.lines[n_lines:]
+                tags = tuple(t for t in kv.get("tags", "").split(",") if t)
+                self.fns[gkey] = FnInfo(key=gkey, tags=tags, repo_file="", repo_line_start=0, repo_line_end=0, sha="", has_body=False,
+                                        unverified="function %s does not exist on this tree (renamed or removed)" % key)
+                self.log.append("%s: NOT FOUND on this tree; its contract is not emitted, the properties it carries are undecided" % key)
+                return
             if decl_only or "spliced twice" in str(e) or "not found in /repo" in str(e) or "is not a fn" in str(e):
                 raise
             del self.lines[n_lines:]
@@ -1223,6 +1233,27 @@ class Splicer:
                     i += 1
                 elif s.startswith("//@impl_open "):
                     key, kvs = split_key(s[len("//@impl_open "):])
+                    try:
+                        self.lookup(key)
+                    except SpliceError:
+                        # the member that names the impl block was renamed or removed: any other function of the same section of
+                        # the contract file (up to the next impl_open) that still exists names the same block
+                        j2, alt = i + 1, None
+                        while j2 < len(tl) and not tl[j2].strip().startswith("//@impl_open "):
+                            s2 = tl[j2].strip()
+                            if s2.startswith("//@fn ") or s2.startswith("//@sig "):
+                                k2, kv2 = split_key(s2.split(None, 1)[1])
+                                if "as" not in parse_kv(kv2) and k2.rsplit("::", 1)[0] == key.rsplit("::", 1)[0]:
+                                    try:
+                                        self.lookup(k2)
+                                        alt = k2
+                                        break
+                                    except SpliceError:
+                                        pass
+                            j2 += 1
+                        if alt is not None:
+                            self.log.append("impl_open: %s not found, impl block located through %s" % (key, alt))
+                            key = alt
                     self.do_impl_open(key, parse_kv(kvs))
                     i += 1
                 elif s.startswith("//@fn ") or s.startswith("//@sig "):
@@ -1259,6 +1290,21 @@ class Splicer:
                         sfm = self.sources[cur_mod]
                         for (hit, hparent) in self.helpers_needed.pop(cur_mod):
                             htext = re.sub(r"^pub(\([a-z]+\))?\s+", "", sfm.src[hit.start:hit.end], count=1)
+                            # the body is not verified and only its signature matters to the callers: it is left out, so that
+                            # constructs outside the subset (a `for` over a stand-in iterator, ..) cannot make the file ill-typed
+                            try:
+                                ht2 = tokenize(htext)
+                                d2 = 0
+                                for t2 in ht2:
+                                    if t2.text in ("(", "["):
+                                        d2 += 1
+                                    elif t2.text in (")", "]"):
+                                        d2 -= 1
+                                    elif t2.text == "{" and d2 == 0:
+                                        htext = htext[:t2.start] + "{ unimplemented!() }"
+                                        break
+                            except Exception:
+                                pass
                             if hparent is not None:
                                 hdr = sfm.src[hparent.start:hparent.head_end].rstrip()
                                 block = hdr + " {\n#[verifier::external_body]\n" + htext + "\n}"
